@@ -335,7 +335,7 @@ def replay(path: str) -> int:
     r = json.load(open(path))["replay"]
     if r.get("kind") == "srctie":
         from harness import srctie
-        srctie.replay(r)
+        srctie.replay(r, show=True)
         return 0
     install()
     o = [outcome(r["spec"]) for _ in range(3)]
